@@ -70,6 +70,44 @@ fn size_for(len: usize, n: usize) -> Option<usize> {
     }
 }
 
+/// Real CRC-valid chunks (with the PadWing board name for the bank) for an abstract arrival sequence
+/// `rx` = [[board, chip, id, eom, size class, segment]...] of a message of `n` chunks.
+pub fn concretize_rx<R: Rng>(rng: &mut R, rx: &[Value], n: usize) -> Vec<(String, Vec<u8>)> {
+    // boards installed in the simulation map, so that a clean event really builds
+    let maps = crate::evt::maps_for(crate::evt::SIM);
+    let mut installed: Vec<(String, u32, [u8; 6])> = maps.pad.values().map(|v| (v.0.clone(), v.1, v.2)).collect();
+    installed.sort();
+    installed.dedup();
+    let b1 = installed[rng.gen_range(0..installed.len())].clone();
+    let b2 = installed.iter().find(|b| b.0 != b1.0).unwrap().clone();
+    let chip = rng.gen_range(0..4u8);
+    // a valid PWB payload that names the same board and chip as its chunks, long enough for n chunks
+    let macs = [b1.2];
+    let (nch, req) = (rng.gen_range(1..=3), rng.gen_range(0..=12));
+    let mut f = rand_pwb(rng, &macs, nch, req);
+    f.chip = chip;
+    let msg = f.pack();
+    let size = size_for(msg.len(), n).expect("message too short for the chunk count");
+    let parts: Vec<&[u8]> = msg.chunks(size).collect();
+    rx.iter()
+        .map(|c| {
+            let c = c.as_array().unwrap();
+            let g = |k: usize| c[k].as_u64().unwrap();
+            let seg = g(5) as usize;
+            let mut payload = parts[seg.min(parts.len() - 1)].to_vec();
+            if g(4) == 3 {
+                payload.push(0);
+            }
+            let board = if g(0) == 1 { &b1 } else { &b2 };
+            (
+                board.0.clone(),
+                ChunkFields { dev: board.1, pseq: rng.gen(), cseq: rng.gen(), chip: if g(1) == 1 { chip } else { (chip + 1) % 4 },
+                              flags: g(3) as u8, id: g(2) as u16, payload }.pack(),
+            )
+        })
+        .collect()
+}
+
 pub fn replay(run: &mut Runner, path: &str, seed: u64, concretisations: usize) {
     let mut rng = rng_from(seed, 4);
     let macs = pwb_macs();
